@@ -14,6 +14,8 @@ no channel demoted, counts = the ones the refinement chose (its own report), cos
 """
 import itertools, io, contextlib, re, math
 from .common import *
+from . import c20_gen
+from .c20_gen import regenerate      # setup.sh regenerates Gen/RefineGen.v through this name
 
 
 def _env():
@@ -158,7 +160,9 @@ def cost_table(torch, utils, m, lname, layer, init_counts, order):
 
 def run(ctx):
     torch, utils = _env()
+    gen_rejected = c20_gen.regenerate(ctx)
     built = ctx.build()
+    ctx.extra['generated_model'] = c20_gen.status(gen_rejected, built)
     ctx.rule = ('(A) for every size (P,C) in {1..4}x{1..3}, (2,4), (3,4): seeded tie-free score matrices (random permutations of 0..PC-1) x ALL compositions of C into P targets; '
                 'seeded matrices up to 4x8 with random compositions; (B) per-channel MPS models (conv3x3 / conv1x1 / depthwise / linear, 33..64 channels, precision tuples incl. 0-bit and non-ascending) '
                 'with the NE16 cost: full run of optimize_prec_assignment.  non-trivial = target differs from the current per-precision counts (A) / the refinement changed a layer (B)')
@@ -313,11 +317,13 @@ def run(ctx):
         try:
             ex = ['run_reassign %s %s' % (coq([[Fraction(x) for x in r] for r in c['scores']]), coq([Nat(x) for x in c['best']])) for c in A]
             vals = ctx.coq_eval_sharded('reassign', ['Plinio.Model.Reassign'], '', ex, shard=600)
+            # the model GENERATED from mps/utils.py on this run, on the same cases
+            mism += c20_gen.differences(ex, vals, ctx.coq_eval_sharded('greassign', c20_gen.IMPORTS, '', c20_gen.gen_exprs(ex), shard=600))
             for c, v in zip(A, vals):
                 ctx.corr += 1
                 if c['impl'] != v:
                     mism.append(('reassign', c, v))
-            ex, refs = [], []
+            ex, refs, gex = [], [], []
             for rec in B:
                 for n, d in rec['layers'].items():
                     if d['table'] is None or rec.get('shared_weight_quantizer'):
@@ -332,8 +338,10 @@ def run(ctx):
                     d['tie_free'] = all(len(set(row)) == len(row) for row in sc) and all(len({sc[p][c] for p in range(len(sc))}) == len(sc) for c in range(len(sc[0])))
                     ex.append('run_pipeline %s %s %s %s %s' % (coq(tbl), coq(skip), coq([Nat(x) for x in order]), coq([Nat(x) for x in pos]), coq(sc)))
                     refs.append((rec, n, d))
+                    gex.append(c20_gen.pipeline_gexpr(coq(tbl), d['precisions_sorted'], order, coq(sc)))
             if ex:
                 vals = ctx.coq_eval_sharded('refine', ['Plinio.Model.Reassign'], '', ex, shard=4)
+                mism += c20_gen.differences(ex, vals, ctx.coq_eval_sharded('grefine', c20_gen.IMPORTS, '', gex, shard=4), gex)
                 for (rec, n, d), (v, massign) in zip(refs, vals):
                     ctx.corr += 1
                     d['model_counts'] = v
@@ -354,7 +362,9 @@ def run(ctx):
     ctx.extra['refine_runs'] = [{k: v for k, v in rec.items() if k != 'layers'} for rec in B][:12]
 
     if not ctx.violations:   # a printed KNOWN-FINDING must not hide a broken proof / model / correspondence
-        if not built:
+        if c20_gen.report(ctx, gen_rejected, built):
+            pass
+        elif not built:
             ctx.violation('proof-broken', {'theorems': [o[0] for o in ctx.obligations if not o[1]], 'log': getattr(ctx, 'broken_log', '')[-3000:]}, 'Props/C20.v no longer checks', no_input=True)
         elif not model_ok:
             ctx.violation('model-eval-broken', {'notes': ctx.notes}, 'the model could not be evaluated', no_input=True)
